@@ -848,6 +848,25 @@ theorem safe_recSet (inp : Input) (h : wf .recSet inp = true) : Safe inp (prog .
   intro b j hk hu
   cases inp.isRv 1 <;> simp [fwd, Instr.kills, Instr.uses] at hk hu <;> omega
 
+/-! ## extension round 5: remove / unique -/
+
+theorem safe_compactOps (inp : Input) (o : Op) (ho : o = .algRemoveIf ∨ o = .algUniqueIf) (h : wf o inp = true) :
+    Safe inp (prog o inp) := by
+  have hs := shape_of_wf h
+  rcases ho with rfl | rfl <;> simp only [shapeOk, Bool.and_eq_true, beq_iff_eq] at hs
+  · exact safe_compact (not_lvcr_of_in hs.1.1.2 rvio_io) (by omega)
+  · exact safe_compact (not_lvcr_of_in hs.1.1.1.2 rvio_io) (by omega)
+
+theorem safe_algRemove (inp : Input) (h : wf .algRemove inp = true) : Safe inp (prog .algRemove inp) := by
+  have hs := shape_of_wf h
+  simp only [shapeOk, Bool.and_eq_true, beq_iff_eq] at hs
+  obtain ⟨⟨⟨⟨_, h0⟩, h1⟩, hn1⟩, _⟩ := hs
+  exact safe_cons ((ok_xfer_copy inp 1 0 .drop).2 ⟨lvcr_of_in h1 lvcr_cr, by omega, destOk_drop inp⟩) (safe_readAll (Nat.le_refl _))
+    (fun y _ b j hk _ => hk)
+
+theorem safe_algUnique (inp : Input) (h : wf .algUnique inp = true) : Safe inp (prog .algUnique inp) :=
+  safe_readAll (Nat.le_refl _)
+
 /-- **every registered operation's program is safe**, for arguments of every size -/
 theorem prog_safe (o : Op) (inp : Input) (h : wf o inp = true) : Safe inp (prog o inp) := by
   cases o with
@@ -1012,5 +1031,9 @@ theorem prog_safe (o : Op) (inp : Input) (h : wf o inp = true) : Safe inp (prog 
   | algMapArr => exact safe_map2 inp _ (by simp) h
   | algMapTup => exact safe_map2 inp _ (by simp) h
   | recSet => exact safe_recSet inp h
+  | algRemoveIf => exact safe_compactOps inp _ (by simp) h
+  | algUniqueIf => exact safe_compactOps inp _ (by simp) h
+  | algRemove => exact safe_algRemove inp h
+  | algUnique => exact safe_algUnique inp h
 
 end Fcppt.C05
